@@ -553,6 +553,16 @@ def compose_keys(k1, k2):
 
 def index(base, key):
     a = base.single_atom() if isinstance(base, Poly) else None
+    if a is None and isinstance(base, Poly) and len(base.terms) > 1 and _scalar_index(key):
+        # (u[1::2] - u[0::2] + 1)[k]: arithmetic of slices is element-wise, so the entry is the arithmetic of the entries
+        # (only when every non-constant term is a plain multiple of one slice, which is certainly an array)
+        def sliced(m):
+            return len(m) == 1 and m[0][1] == 1 and m[0][0][0] == 'idx' and isinstance(m[0][0][2], Slice)
+        if all((not m) or sliced(m) for m, _ in base.terms):
+            out = ZERO
+            for m, c in base.terms:
+                out = out + (Poly.const(c) if not m else Poly.const(c) * index(Poly.atom(m[0][0]), key))
+            return out
     if a is None:
         a = ('val', base)
     if a[0] == 'app' and a[1] == 'listcomp' and len(a[2]) == 2 and isinstance(key, Poly) and isinstance(a[2][0], Poly):
